@@ -8,6 +8,9 @@ import (
 	"fmt"
 	"io"
 	"net/http"
+	"os"
+	"runtime"
+	"strconv"
 	"strings"
 	"sync"
 	"testing"
@@ -26,7 +29,8 @@ type Attempt struct {
 	Ev      int           // index of the script event that answered
 	Start   time.Duration // virtual instant (since case start) the first hop arrived
 	End     time.Duration // virtual instant the answer (or the abort) left the round tripper
-	Aborted bool          // the request context ended before the answer was served
+	Aborted bool          // the caller's context ended before the answer was served
+	Timeout bool          // the http.Client's own Timeout cut the request while the caller's context was alive
 	Method  string        // method of the answering hop ("" when it never arrived)
 	Hops    int
 	Status  int    // status served (0 for a network error / abort)
@@ -61,6 +65,8 @@ type Outcome struct {
 
 const attemptCap = 600
 
+var procsAtStart = runtime.GOMAXPROCS(0)
+
 type callerKey struct{}
 
 type nopLogger struct{}
@@ -73,6 +79,53 @@ type scriptedRT struct {
 	c     Case
 	out   *Outcome
 	open  []int // per caller: index into out.Attempts[i] of the attempt whose redirect is in flight, or -1
+	cctx  []context.Context // per caller: the context the caller passed to the API
+	// barrier bookkeeping: arrived[n] counts the callers whose attempt number n waits at a barrier
+	arrived map[int]int
+	release map[int]chan struct{}
+}
+
+// barrier blocks until every caller's attempt number n has arrived (or ctx ends).
+func (rt *scriptedRT) barrier(ctx context.Context, n int) bool {
+	rt.mu.Lock()
+	ch := rt.release[n]
+	if ch == nil {
+		ch = make(chan struct{})
+		rt.release[n] = ch
+	}
+	rt.arrived[n]++
+	if rt.arrived[n] == len(rt.c.Callers) {
+		close(ch)
+	}
+	rt.mu.Unlock()
+	select {
+	case <-ch:
+		return true
+	case <-ctx.Done():
+		return false
+	}
+}
+
+// stallErr mimics what http.Client.Timeout produces: a timeout error that Is context.DeadlineExceeded.
+type stallErr struct{}
+
+func (stallErr) Error() string   { return "scripted stall (Client.Timeout exceeded while awaiting headers)" }
+func (stallErr) Timeout() bool   { return true }
+func (stallErr) Temporary() bool { return true }
+func (stallErr) Is(t error) bool { return t == context.DeadlineExceeded }
+
+func scriptedNetErr(kind int) error {
+	switch kind {
+	case 1:
+		return stallErr{}
+	case 2:
+		return fmt.Errorf("scripted transport failure: %w", context.Canceled)
+	case 3:
+		return context.DeadlineExceeded
+	case 4:
+		return context.Canceled
+	}
+	return errScripted
 }
 
 type brokenReader struct{}
@@ -155,7 +208,14 @@ func (rt *scriptedRT) RoundTrip(req *http.Request) (*http.Response, error) {
 		rt.mu.Unlock()
 	}
 	abort := func() (*http.Response, error) {
-		finish(func(a *Attempt) { a.Aborted = true })
+		callerDone := rt.cctx[ci] == nil || rt.cctx[ci].Err() != nil
+		finish(func(a *Attempt) {
+			if callerDone {
+				a.Aborted = true
+			} else {
+				a.Timeout, a.Method = true, req.Method
+			}
+		})
 		return nil, ctx.Err()
 	}
 	if ctx.Err() != nil {
@@ -177,11 +237,14 @@ func (rt *scriptedRT) RoundTrip(req *http.Request) (*http.Response, error) {
 	if !vt.Sleep(ctx, time.Duration(e.LatMs)*time.Millisecond) {
 		return abort()
 	}
+	if e.Barrier && !rt.barrier(ctx, ai) {
+		return abort()
+	}
 	marker := uint64(ci+1)*1000000 + uint64(ai)
 	switch e.Kind {
 	case "neterr":
 		finish(func(a *Attempt) { a.Method = req.Method })
-		return nil, errScripted
+		return nil, scriptedNetErr(e.NetErr)
 	case "ok":
 		body := goodBody(marker)
 		finish(func(a *Attempt) { a.Method, a.Status, a.Body, a.Marker = req.Method, 200, body, marker })
@@ -248,13 +311,24 @@ func classifyErr(err error) string {
 
 // run executes the case inside a synctest bubble and returns the recorded trace.
 func run(t *testing.T, c Case) Outcome {
+	want := procsAtStart
+	if c.Procs > 0 {
+		want = c.Procs
+	}
+	if v, err := strconv.Atoi(os.Getenv("C13_PROCS")); err == nil && v > 0 { // diagnosis only
+		want = v
+	}
+	if runtime.GOMAXPROCS(0) != want {
+		runtime.GOMAXPROCS(want)
+	}
 	out := Outcome{Attempts: make([][]Attempt, len(c.Callers)), Calls: make([]CallRec, len(c.Callers))}
 	res := vt.Run(t, 48*time.Hour, func(bctx context.Context) {
-		rt := &scriptedRT{start: time.Now(), c: c, out: &out, open: make([]int, len(c.Callers))}
+		rt := &scriptedRT{start: time.Now(), c: c, out: &out, open: make([]int, len(c.Callers)), cctx: make([]context.Context, len(c.Callers)),
+			arrived: map[int]int{}, release: map[int]chan struct{}{}}
 		for i := range rt.open {
 			rt.open[i] = -1
 		}
-		lc, err := client.New("http://log.test/prefix", &http.Client{Transport: rt}, jsonclient.Options{Logger: nopLogger{}})
+		lc, err := client.New("http://log.test/prefix", &http.Client{Transport: rt, Timeout: time.Duration(c.ClientTimeoutMs) * time.Millisecond}, jsonclient.Options{Logger: nopLogger{}})
 		if err != nil {
 			panic(err)
 		}
@@ -283,6 +357,9 @@ func run(t *testing.T, c Case) Outcome {
 					}
 				}
 				defer cancel()
+				rt.mu.Lock()
+				rt.cctx[i] = ctx
+				rt.mu.Unlock()
 				var rec CallRec
 				rec.Started, rec.CallStart = true, rt.since()
 				var cerr error
